@@ -524,3 +524,25 @@ Proof.
   repeat (apply andb_true_iff in H; destruct H as [H ?]).
   split; [apply image_in_load; assumption | assumption].
 Qed.
+
+(* ---------------- ProgramHeadersForMapping does not depend on the order of the table ---------------- *)
+From Coq Require Import Permutation.
+
+Lemma phm_membership_lemma : forall phdrs mapOff mapSz p,
+  In p (program_headers_for_mapping phdrs mapOff mapSz) <-> In p phdrs /\ phm_keep mapOff mapSz p = true.
+Proof. intros. unfold program_headers_for_mapping. apply filter_In. Qed.
+
+Lemma filter_permutation : forall (A : Type) (f : A -> bool) (l l' : list A),
+  Permutation l l' -> Permutation (filter f l) (filter f l').
+Proof.
+  intros A f l l' H. induction H as [|x l l' H IH|x y l|l l' l'' H1 IH1 H2 IH2]; cbn [filter].
+  - constructor.
+  - destruct (f x); [constructor|]; exact IH.
+  - destruct (f x); destruct (f y); try constructor; apply Permutation_refl.
+  - eapply Permutation_trans; eassumption.
+Qed.
+
+Lemma phm_permutation_lemma : forall phdrs phdrs' mapOff mapSz,
+  Permutation phdrs phdrs' ->
+  Permutation (program_headers_for_mapping phdrs mapOff mapSz) (program_headers_for_mapping phdrs' mapOff mapSz).
+Proof. intros. unfold program_headers_for_mapping. apply filter_permutation. assumption. Qed.
